@@ -133,7 +133,7 @@ def r14_6(ctx):
 def r14_s(ctx):
     """further clauses of the validating skipper behind the checked lazy APIs (shared with C02)"""
     from . import c02
-    for fn in (c02.r02_2, c02.r02_4, c02.r02_7, c02.r02_11):
+    for fn in (c02.r02_2, c02.r02_4, c02.r02_7, c02.r02_11, c02.r02_12):
         ctx.include(fn, 'R14.S')
 
 
